@@ -268,6 +268,8 @@ def instance_pool(ctx, cirq, rng):
     pool.append(('gen/circuit-op-expr-reps', cirq.CircuitOperation(cirq.FrozenCircuit(cirq.X(qs[0])), repetitions=sympy.Symbol('r') * 2 + 1, use_repetition_ids=False)))
     pool.append(('gen/duration-symbolic', cirq.Duration(nanos=sympy.Symbol('t'))))
     pool.append(('gen/wait-shapes', [cirq.WaitGate(cirq.Duration(nanos=2), num_qubits=2), cirq.WaitGate(cirq.Duration(nanos=2), qid_shape=(3,)), cirq.WaitGate(cirq.Duration(picos=sympy.Symbol('t')))]))
+    for j_, wg_ in enumerate([cirq.WaitGate(cirq.Duration(nanos=2), num_qubits=2), cirq.WaitGate(cirq.Duration(nanos=2), qid_shape=(3,)), cirq.WaitGate(cirq.Duration(nanos=2), qid_shape=(2, 3)), cirq.WaitGate(cirq.Duration(nanos=2))]):
+        pool.append((f'gen/wait-gate-{j_}', wg_))
     qa_ = cirq.LineQubit(0)
     pool.append(('gen/tagged-empty', cirq.TaggedOperation(cirq.X(qa_))))
     pool.append(('gen/tagged-nested', cirq.TaggedOperation(cirq.TaggedOperation(cirq.X(qa_), 'inner'), 'outer')))
